@@ -134,3 +134,51 @@ Example C08_default_of_three_syllables :
   chewing_convert sort_by_len (fun _ => []) lk3 (mkComp [SymSyl 1; SymSyl 2; SymSyl 3]%N [GBegin; GNormal; GNormal] [])
   = Ok [[mkIv 0 3 true [103; 203; 303]%N]].
 Proof. vm_compute. reflexivity. Qed.
+
+(* ---- "with auto-learning disabled, committing never changes the user dictionary", for whole key events and for every
+   sequence of them (Proofs/DictFrame.v): with the option set, no key event - in any of the four states, any key,
+   any layout, any dictionary implementation, any conversion - changes the dictionary, unless it is one of the two
+   explicit add-phrase gestures (Ctrl-digit while editing, Enter while a range is marked), which are the user's own
+   request and not learning.  In particular: Enter, auto-commit, choosing candidates, Tab. ---- *)
+From LC Require Import Proofs.DictFrame.
+
+Theorem C08_disabled_learning_no_key_changes_the_dictionary :
+  forall D SY (dops : dict_ops D) (sops : syl_ops SY) conv (e e' : editor D SY) ev b,
+  o_no_learn (opts (sh e)) = true -> adds_phrase (st e) ev = false ->
+  process_keyevent dops sops conv e ev = Ok (e', b) ->
+  dict (sh e') = dict (sh e) /\ o_no_learn (opts (sh e')) = true.
+Proof.
+  intros D SY dops sops conv e e' ev b Hn Ha H.
+  pose proof (process_keyevent_dk dops sops conv e ev e' b Hn Ha H) as K. unfold dk in K. injection K as K1 K2.
+  split; [exact K1 | now rewrite K2].
+Qed.
+Print Assumptions C08_disabled_learning_no_key_changes_the_dictionary.
+
+Theorem C08_disabled_learning_no_key_sequence_changes_the_dictionary :
+  forall D SY (dops : dict_ops D) (sops : syl_ops SY) conv evs (e e' : editor D SY),
+  o_no_learn (opts (sh e)) = true -> quiet_keys dops sops conv e evs ->
+  run dops sops conv e (map OpKey evs) = Ok e' ->
+  dict (sh e') = dict (sh e).
+Proof.
+  intros D SY dops sops conv evs e e' Hn Hq H.
+  pose proof (keys_dk dops sops conv evs e e' Hn Hq H) as K. unfold dk in K. now injection K as K1 _.
+Qed.
+Print Assumptions C08_disabled_learning_no_key_sequence_changes_the_dictionary.
+
+(* non-vacuity, through the C calls: the same keys (Hsu: `a` Space `a` Space Enter - two syllables, committed) with
+   the option set leave the user dictionary empty, and without it they record the committed phrase *)
+From Coq Require Import ZArith.
+From LC Require Import Gen.Keyboard_gen Model.EdInst Model.CapiKeys Model.CapiConfig Model.CapiRun.
+Definition c08_dict : memdict := mkMD (bt_insert ([10240], [27425], 10, 0) [])%N [] [].
+Definition c08_keys : list cop := [CSetKBType 1; CDefault 97; CHandle kcSpace 0; CDefault 97; CHandle kcSpace 0; CHandle kcEnter 0]%Z.
+Example C08_c_disabled_learning_example :
+  (exists c, crun mf_conv (cx_init c08_dict [] ss_empty 0%N)
+               (CConfigSetInt (Config.iopt_name Config.ODisableAutoLearnPhrase) 1 :: c08_keys) = Ok c /\
+             c_commit_string c = [27425; 27425]%N /\ md_user (dict (sh (cx_ed c))) = []) /\
+  (exists c, crun mf_conv (cx_init c08_dict [] ss_empty 0%N) c08_keys = Ok c /\
+             c_commit_string c = [27425; 27425]%N /\ md_user (dict (sh (cx_ed c))) <> []).
+Proof.
+  split.
+  - eexists. split; [vm_compute; reflexivity|]. vm_compute. split; reflexivity.
+  - eexists. split; [vm_compute; reflexivity|]. vm_compute. split; [reflexivity | discriminate].
+Qed.
